@@ -139,6 +139,9 @@ def scenarios(tier: str, rng: random.Random) -> list[tuple]:
         a["lineup"] = [list(x) for x in lineups[i % len(lineups)]]
         b = twins.random_config(rng)
         b["lineup"] = [list(x) for x in lineups[(i + 1) % len(lineups)]]
+        if i % 3 == 0:     # a simulation length other than the length of the real series (method of moments)
+            a.update({"loss": "MethodOfMomentsLoss", "simextra": 5})
+            b.update({"loss": "MethodOfMomentsLoss", "simextra": 11})
         kind = i % 4
         if kind == 0:      # same shape, the new run has fewer / equal / more rows than the old checkpoint
             b["E"], b["N"], b["prec"], b["bounds"] = a["E"], a["N"], a["prec"], a["bounds"]
